@@ -116,8 +116,14 @@ def run(tier, replay=None):
                 shape = ":split-header:FHCRC=%d:optional-fields=%d" % ((flg >> 1) & 1, bin(flg & 0x1c).count("1"))
             v.violation("%s:%s%s" % (o["t"], why, shape), "%s %s: %s" % (o["t"], why, json.dumps({k: (x if not isinstance(x, list) or len(x) < 40 else x[:40]) for k, x in rec.items()})[:400]),
                         {"input": s, "recorded": rec})
+    mc = {k: tlc_cached("mc/MCHeaderIO", cfg="MCHeaderIO_%s.cfg" % k, wd=wd, workers=2, timeout=300) for k in ("gzip", "zlib")}
+    drift = sum(o.get("drift", 0) for o in res)
+    keys = set(tuple(k) for o in res for k in o.get("keys", []))
+    if drift: log("note: %d reader calls are not steps of spec/HeaderIOOps.tla (model drift, informational)" % drift)
     cov = {"states": len(recs), "transitions": sum(len(x.get("steps", [1])) for x in recs), "traces_validated_against_impl": len(recs), "evaluations": len(recs),
            "distinct_nontrivial": counts["read"] + counts["wgzip"], "writer_calls": counts["wgzip"] + counts["wzlib"], "reader_runs": counts["read"],
+           "state_machine_conformance": {"model": "spec/HeaderIOOps.tla (machine: spec/HeaderIO.tla, model-checked: %s)" % {k: x["distinct"] for k, x in mc.items()},
+                                         "reader_calls_not_in_model": drift, "distinct_(kind,state,input,code,next_state)_observed": len(keys)},
            "rule": "writers: every subset of {FEXTRA,FNAME,FCOMMENT,FHCRC} x field values (text, time with distinct bytes, xflags, os, extra up to 65535 B) x avail_out in {0,1,9,10,need-1,need,need+1,need+100}; zlib info 0-7 x level 0-3 x FDICT with a dictionary id of distinct bytes; "
                    "TLC requires the bytes to be exactly as long as the RFC layout and to PARSE back (Wrappers!ParseGzip/ParseZlib: RFC byte order, FCHECK, CRC16) to the given fields, or the required size with the stream untouched; "
                    "readers: for headers with every subset of optional fields every single split point, 1-byte chunks, mixed chunks, undersized name/comment/extra buffers (one short, exact, 1, 0) with growth (resume after overflow) and without, python-gzip-made headers, zlib headers with/without FDICT, "
